@@ -209,7 +209,7 @@ static int is_synth_end(const lgraph *g, int i) { return i == g->end && g->n[i].
 
 static void mon_c11(ctx *c, int final, lgraph *g, const vd_result *res)
 {
-    int i, k, nsrc = 0, nsink = 0; const char *fin = final ? "final" : "partial";
+    int i, k, nsrc = 0, nsink = 0, last_exit_frame = -1; const char *fin = final ? "final" : "partial";
     const vfsa *T = &c->g->truth;
     /* single start / end */
     for (i = 0; i < g->nn; ++i) { if (g->n[i].nin == 0) { ++nsrc; if (i != g->start) vh_viol("extra_node_without_entries", "%s: node %s@%d has no entries but is not the start node (%d nodes)", fin, g->n[i].word, g->n[i].sf, g->nn); } if (g->n[i].nout == 0) { ++nsink; if (i != g->end) vh_viol("extra_node_without_exits", "%s: node %s@%d has no exits but is not the end node", fin, g->n[i].word, g->n[i].sf); } }
@@ -224,10 +224,13 @@ static void mon_c11(ctx *c, int final, lgraph *g, const vd_result *res)
     for (i = g->nn - 1; i >= 0; --i) { int u = g->topo[i]; if (g->n[u].bw) for (k = 0; k < g->n[u].nin; ++k) g->n[g->l[g->n[u].in[k]].from].bw = 1; }
     for (i = 0; i < g->nn; ++i) if (!g->n[i].fw || !g->n[i].bw) { vh_viol(g->n[i].fw ? "node_cannot_reach_end" : "node_unreachable_from_start", "%s: node %s@%d is not on any start-to-end path", fin, g->n[i].word, g->n[i].sf); break; }
     /* time consistency of every link */
+    /* the lattice ends in the last frame in which a word instance that has predecessors ends */
+    for (i = 0; i < g->nn; ++i) if (!is_synth_end(g, i) && !is_synth_start(g, i) && g->n[i].nin > 0 && g->n[i].lef > last_exit_frame) last_exit_frame = g->n[i].lef;
+    if (last_exit_frame >= g->nframes) vh_viol("node_ends_past_utterance", "%s: a node's last end frame %d is outside the %d frames of the lattice", fin, last_exit_frame, g->nframes);
     for (i = 0; i < g->nl; ++i) {
         const llink *l = &g->l[i]; const lnode *a = &g->n[l->from], *b = &g->n[l->to];
         if (is_synth_start(g, l->from)) { if (b->sf != 0) vh_viol("synthetic_start_link", "%s: <s> links to %s starting at frame %d", fin, b->word, b->sf); continue; }
-        if (is_synth_end(g, l->to)) { if (a->lef != g->nframes - 1) vh_viol("synthetic_end_link", "%s: %s@%d (last end frame %d) links to </s> but the utterance has %d frames", fin, a->word, a->sf, a->lef, g->nframes); continue; }
+        if (is_synth_end(g, l->to)) { if (a->lef != last_exit_frame) vh_viol("synthetic_end_link", "%s: %s@%d (last end frame %d) links to </s> but the last frame with a word exit is %d (utterance of %d frames)", fin, a->word, a->sf, a->lef, last_exit_frame, g->nframes); continue; }
         if (b->sf != l->ef + 1) vh_viol("link_not_t_to_t_plus_1", "%s: link %s@%d -> %s@%d ends at frame %d but the target starts at %d", fin, a->word, a->sf, b->word, b->sf, l->ef, b->sf);
         if (a->sf > l->ef || a->sf < 0) vh_viol("link_before_its_word", "%s: link out of %s@%d ends at frame %d", fin, a->word, a->sf, l->ef);
         if (l->ef >= g->nframes) vh_viol("link_past_utterance", "%s: link ends at frame %d, lattice covers %d frames", fin, l->ef, g->nframes);
